@@ -561,6 +561,11 @@ def u_multicategorical(ctx, which):
             if max(dims) <= 128:
                 # the same values as the narrowest integer type that holds them (actions stored compactly)
                 out["lp_int8"] = jax.vmap(d.log_prob)(support.astype(jnp.int8))
+            if support.shape[0] >= 12:
+                # a block of points with two / three leading axes in one call (a rollout block [steps, envs, dims])
+                out["lp_block23"] = d.log_prob(support[:6].reshape(2, 3, len(dims)))
+                out["lp_block33"] = d.log_prob(support[:9].reshape(3, 3, len(dims)))
+                out["lp_block223"] = d.log_prob(support[:12].reshape(2, 2, 3, len(dims)))
             return out
         return one, np.asarray(support)
 
@@ -620,6 +625,14 @@ def u_multicategorical(ctx, which):
                 j = int(np.argmax(np.where(np.isfinite(a32) & np.isfinite(a8), np.abs(a8 - a32), np.inf)))
                 ctx.violation("multicategorical-log-prob-depends-on-the-integer-dtype-of-the-value",
                               {"case": desc, "value": support[j], "as_int8": float(a8[j]), "as_int32": float(a32[j])})
+        for nm, shp in (("lp_block23", (2, 3)), ("lp_block33", (3, 3)), ("lp_block223", (2, 2, 3))):
+            if nm in o:
+                ctx.monitor("log_prob_of_value_blocks_points", int(np.prod(shp)))
+                got_b, want_b = np.asarray(o[nm], np.float64), np.asarray(o["lp"], np.float64)[: int(np.prod(shp))].reshape(shp)
+                fin_b = np.isfinite(want_b)
+                if got_b.shape != want_b.shape or not np.array_equal(np.isfinite(got_b), fin_b) or np.any(np.abs(got_b - want_b)[fin_b] > 1e-5):
+                    ctx.violation("multicategorical-log-prob-of-a-block-of-values-not-pointwise",
+                                  {"case": desc, "block_shape": list(shp), "got_shape": list(got_b.shape), "got": got_b, "want": want_b})
         he = float(np.sum(np.asarray(o["comp_ent"], np.float64)))
         if not abs(float(o["ent"]) - he) <= 1e-5 * k + 1e-5 * abs(he):
             ctx.violation("multicategorical-entropy-not-sum-of-components", {"case": desc, "got": float(o["ent"]), "want": he})
